@@ -95,3 +95,21 @@ Fixpoint paths_eqb (a c : list (string * N)) : bool :=
   end.
 Lemma upload_paths_agree_with_spec : paths_eqb upload_paths upload_file_ids = true.
 Proof. vm_compute. reflexivity. Qed.
+
+(* result codes and messages (C20), constants of the client (C08, C09, C10) *)
+Fixpoint codes_eqb (a : list (N * string * string)) (c : list (N * string)) : bool :=
+  match a, c with
+  | [], [] => true
+  | (n, _, m) :: r, (k, m') :: s => (n =? k) && String.eqb m m' && codes_eqb r s
+  | _, _ => false
+  end.
+Lemma result_codes_agree_with_spec : codes_eqb error_table result_codes = true.
+Proof. vm_compute. reflexivity. Qed.
+
+Definition const_ok (kv : string * N) : bool :=
+  match find (fun x => String.eqb (fst x) (fst kv)) consts with Some (_, v) => v =? snd kv | None => false end.
+Definition str_const_ok (kv : string * string) : bool :=
+  match find (fun x => String.eqb (fst x) (fst kv)) str_consts with Some (_, v) => String.eqb v (snd kv) | None => false end.
+Lemma client_constants_agree_with_spec :
+  forallb const_ok client_constants && forallb str_const_ok client_str_constants && paths_eqb currencies currencies_iso4217 = true.
+Proof. vm_compute. reflexivity. Qed.
